@@ -299,7 +299,7 @@ const ODD_VALUES: [&str; 11] = [
   "=!!p://h/p#i", "http://[::1", "#", " ", "\u{e9}\u{4e2d}", "0", "true", "a b:c", "xxxxxxxxxxxxxxxxxxxxxxxxxxxxxxxxxxxxxxxxxxxxxxxxxxxxxxxxxxxxxxxxxxxxxxxxxxxxxxxxxxxxxxxxxxxxxxxxxxxxxxxxxxxxxxxxxxxxxxxxxxxxxxxxxxxxxxxxxxxxxxxxxxxxxxxxxxxxxxxxxxxxxxxxxxxxxxxxxxxxxxxxxxxxxxxxxxxxxxxxxxxxxxxxxxxxxxxxxxxxxxxxxxxxxxxxxxxxxxxxxxxxxxxxxxxxxxxxxxxxxxxxxxxx"];
 const SOUPS_PER_TEXT: usize = 12;
 const ODD_DIAGRAM_VALUES: [&str; 5] = ["\u{e9}\u{4e2d}\u{1F600}\u{e9}\u{4e2d}\u{1F600}\u{e9}\u{4e2d}\u{1F600}\u{e9}\u{4e2d}\u{1F600}\u{e9}\u{4e2d}\u{1F600}", " ", "NaN", "-1e999", "1,5"];
-const ODD_TEXTS: [&str; 35] = [
+const ODD_TEXTS: [&str; 40] = [
   "\u{e9}\u{4e2d}\u{1F600}\u{e9}\u{4e2d}\u{1F600}\u{e9}\u{4e2d}\u{1F600}\u{e9}\u{4e2d}\u{1F600}\u{e9}\u{4e2d}\u{1F600}\u{e9}\u{4e2d}\u{1F600}\u{e9}\u{4e2d}\u{1F600}\u{e9}\u{4e2d}\u{1F600}\u{e9}\u{4e2d}\u{1F600}\u{e9}\u{4e2d}\u{1F600}\u{e9}\u{4e2d}\u{1F600}\u{e9}\u{4e2d}\u{1F600}\u{e9}\u{4e2d}\u{1F600}\u{e9}\u{4e2d}\u{1F600}\u{e9}\u{4e2d}\u{1F600}\u{e9}\u{4e2d}\u{1F600}\u{e9}\u{4e2d}\u{1F600}\u{e9}\u{4e2d}\u{1F600}\u{e9}\u{4e2d}\u{1F600}\u{e9}\u{4e2d}\u{1F600}\u{e9}\u{4e2d}\u{1F600}\u{e9}\u{4e2d}\u{1F600}\u{e9}\u{4e2d}\u{1F600}\u{e9}\u{4e2d}\u{1F600}\u{e9}\u{4e2d}\u{1F600}\u{e9}\u{4e2d}\u{1F600}\u{e9}\u{4e2d}\u{1F600}\u{e9}\u{4e2d}\u{1F600}\u{e9}\u{4e2d}\u{1F600}\u{e9}\u{4e2d}\u{1F600}\u{e9}\u{4e2d}\u{1F600}\u{e9}\u{4e2d}\u{1F600}\u{e9}\u{4e2d}\u{1F600}\u{e9}\u{4e2d}\u{1F600}",
   "\"a\u{e9}\u{4e2d}\u{1F600}\u{e9}\u{4e2d}\u{1F600}\u{e9}\u{4e2d}\u{1F600}\u{e9}\u{4e2d}\u{1F600}\u{e9}\u{4e2d}\u{1F600}\u{e9}\u{4e2d}\u{1F600}\u{e9}\u{4e2d}\u{1F600}\u{e9}\u{4e2d}\u{1F600}\u{e9}\u{4e2d}\u{1F600}\u{e9}\u{4e2d}\u{1F600}\u{e9}\u{4e2d}\u{1F600}\u{e9}\u{4e2d}\u{1F600}\u{e9}\u{4e2d}\u{1F600}\u{e9}\u{4e2d}\u{1F600}\u{e9}\u{4e2d}\u{1F600}\u{e9}\u{4e2d}\u{1F600}\u{e9}\u{4e2d}\u{1F600}\u{e9}\u{4e2d}\u{1F600}\u{e9}\u{4e2d}\u{1F600}\u{e9}\u{4e2d}\u{1F600}\u{e9}\u{4e2d}\u{1F600}\u{e9}\u{4e2d}\u{1F600}\u{e9}\u{4e2d}\u{1F600}\u{e9}\u{4e2d}\u{1F600}\u{e9}\u{4e2d}\u{1F600}\u{e9}\u{4e2d}\u{1F600}\u{e9}\u{4e2d}\u{1F600}\u{e9}\u{4e2d}\u{1F600}\u{e9}\u{4e2d}\u{1F600}\u{e9}\u{4e2d}\u{1F600}\u{e9}\u{4e2d}\u{1F600}\u{e9}\u{4e2d}\u{1F600}\u{e9}\u{4e2d}\u{1F600}\u{e9}\u{4e2d}\u{1F600}",
   "(", "1 / 0", "x y z", "[1..", "function() 1", "null", "\"unterminated", "-",
@@ -309,6 +309,12 @@ const ODD_TEXTS: [&str; 35] = [
   "for in+x in [1] return 1", "some in-a in [1] satisfies true", "every in in in satisfies in",
   // escapes in string literals: lone and paired surrogates, other forms
   "\"\\uDC00\"", "\"\\uD800\"", "\"\\uD800\\u0041\"", "\"\\uD83D\\uDE00\"", "\"\\U0001F600\"", "\"\\x\\q\\'\"",
+  // expressions whose evaluation once panicked or never ended (F14-F18)
+  "sort([1,0,2,0,3,2,3,2,1,0,0,2,0,2,0,1,1,2,1,0,0], function(a,b) a != b)",
+  "sublist([1,2,3], 2, 18446744073709551615)",
+  "number(\"1\\u0000\", \".\", \",\")",
+  "count(for i in 9223372036854775807..9223372036854775807 return i)",
+  "median([0,10**6144*10 - 10**6144*10,14,0,7,14,0,7,14,0,1,14,0,7,14,0,7,14,0,7,14])",
 ];
 
 /// All single structural faults of a base text: (kind, index, variant).
@@ -1202,7 +1208,7 @@ impl Sim for C12 {
     parr(plan, "faults").iter().any(|f| edits_of(&catalogue(pstr(plan, "base")), pstr(f, "kind"), pu64(f, "index") as usize, pu64(f, "variant") as usize).is_none())
   }
   fn rule_text(&self) -> String {
-    "cases = (base model text, fault list): every single structural fault (delete / duplicate / empty / swap an element, delete / empty / swap attribute values, 11 odd values per model attribute (two of them long multi-byte texts) and 5 per diagram attribute, delete / swap text nodes, 35 odd contents and 12 seeded token soups of the FEEL vocabulary per FEEL text and typeRef, retarget every href to a missing element, to its own owner and to each element requiring the owner within 3 steps, retarget item definition typeRefs to their own definition and to their referrers) at every position of every .dmn file under examples/src plus the simulator's models - all of them in the thorough tier, every reference fault plus a seeded one-in-5 stratified sample of the rest in the quick tier - then seeded pairs and storage faults (truncate, lost write, bit/burst flips, dropped/duplicated/swapped 64-byte blocks, foreign block spliced in, invalid UTF-8), then seeded cases through the directory-load and HTTP paths; distinct = distinct faulted texts (hash); non-trivial = the fault changed the text".to_string()
+    "cases = (base model text, fault list): every single structural fault (delete / duplicate / empty / swap an element, delete / empty / swap attribute values, 11 odd values per model attribute (two of them long multi-byte texts) and 5 per diagram attribute, delete / swap text nodes, 40 odd contents and 12 seeded token soups of the FEEL vocabulary per FEEL text and typeRef, retarget every href to a missing element, to its own owner and to each element requiring the owner within 3 steps, retarget item definition typeRefs to their own definition and to their referrers) at every position of every .dmn file under examples/src plus the simulator's models - all of them in the thorough tier, every reference fault plus a seeded one-in-5 stratified sample of the rest in the quick tier - then seeded pairs and storage faults (truncate, lost write, bit/burst flips, dropped/duplicated/swapped 64-byte blocks, foreign block spliced in, invalid UTF-8), then seeded cases through the directory-load and HTTP paths; distinct = distinct faulted texts (hash); non-trivial = the fault changed the text".to_string()
   }
   fn assumptions(&self) -> Vec<String> {
     vec![
